@@ -1,17 +1,1668 @@
-//! Engine `cfi` — placeholder (not written yet).
+//! Engine `cfi` (C06): `SymbolFile::walk_frame` on a CFI-only symbol file with a mock
+//! `FrameWalker` (the Rust twin of the Lean record `MdModel.Cfi.Walker`) against the Lean model,
+//! plus the property's own oracle: an independent evaluation written from the module
+//! documentation of `breakpad-symbols/src/sym_file/walker.rs` (expression *trees* built from the
+//! postfix text right-to-left and evaluated recursively — not the implementation's stack machine).
+//!
+//! case line:
+//! `cfi walk base:<n> instr:<n> ptr:<4|8> init:<addr>:<size>:<hex rules> adds:<addr>:<hex>;..|-
+//!           known:<name,..|-> alias:<a=c,..|-> callee:<name=val,..|-> fwd:<name=val,..|-> mem:<base>:<hex>`
+//! answer: `none` | `some cfa=<n> ra=<n> regs:<name=val,..>` | `PANIC`
+
 use crate::common::*;
+use breakpad_symbols::{FrameWalker, SymbolFile};
+use minidump::MinidumpModule;
 
 pub struct Cfi;
+
+// ------------------------------------------------------------------------------------ case
+
+#[derive(Clone, Debug, Default)]
+struct Case {
+    base: u64,
+    instr: u64,
+    ptr: u32,
+    init_addr: u64,
+    init_size: u64,
+    init: Vec<u8>,
+    adds: Vec<(u64, Vec<u8>)>,
+    known: Vec<String>,
+    alias: Vec<(String, String)>,
+    callee: Vec<(String, u64)>,
+    fwd: Vec<(String, u64)>,
+    mem_base: u64,
+    mem: Vec<u8>,
+    /// `stack` cases: (arch, callee sp, leaf allowed, pointer-auth mask)
+    stack: Option<(String, u64, bool, Option<u64>)>,
+}
+
+fn strip<'a>(s: &'a str, key: &str) -> Option<&'a str> {
+    s.strip_prefix(key)
+}
+
+fn parse_pairs(s: &str) -> Option<Vec<(String, u64)>> {
+    if s == "-" {
+        return Some(vec![]);
+    }
+    s.split(',')
+        .map(|p| {
+            let (n, v) = p.split_once('=')?;
+            if n.is_empty() || v.contains('=') {
+                return None;
+            }
+            Some((n.to_string(), v.parse().ok()?))
+        })
+        .collect()
+}
+
+fn parse_case(line: &str) -> Option<Case> {
+    let mut f: Vec<&str> = line.split(' ').filter(|s| !s.is_empty()).collect();
+    if f.len() < 2 || f[0] != "cfi" {
+        return None;
+    }
+    let mut stack = None;
+    if f[1] == "stack" {
+        if f.len() != 16 {
+            return None;
+        }
+        let arch = strip(f[2], "arch:")?.to_string();
+        let sp: u64 = strip(f[13], "sp:")?.parse().ok()?;
+        let leaf = match strip(f[14], "leaf:")? {
+            "0" => false,
+            "1" => true,
+            _ => return None,
+        };
+        let st = strip(f[15], "strip:")?;
+        let st = if st == "-" { None } else { Some(st.parse::<u64>().ok()?) };
+        stack = Some((arch, sp, leaf, st));
+        f.remove(2);
+        f.truncate(12);
+    } else if f[1] != "walk" || f.len() != 12 {
+        return None;
+    }
+    let mut c = Case {
+        base: strip(f[2], "base:")?.parse().ok()?,
+        instr: strip(f[3], "instr:")?.parse().ok()?,
+        ptr: strip(f[4], "ptr:")?.parse().ok()?,
+        ..Default::default()
+    };
+    if c.ptr != 4 && c.ptr != 8 {
+        return None;
+    }
+    let init: Vec<&str> = strip(f[5], "init:")?.split(':').collect();
+    if init.len() != 3 {
+        return None;
+    }
+    c.init_addr = init[0].parse().ok()?;
+    c.init_size = init[1].parse().ok()?;
+    if c.init_size > u32::MAX as u64 {
+        return None;
+    }
+    c.init = unhex(init[2])?;
+    let adds = strip(f[6], "adds:")?;
+    if adds != "-" {
+        for p in adds.split(';') {
+            let q: Vec<&str> = p.split(':').collect();
+            if q.len() != 2 {
+                return None;
+            }
+            c.adds.push((q[0].parse().ok()?, unhex(q[1])?));
+        }
+    }
+    let known = strip(f[7], "known:")?;
+    if known != "-" {
+        for n in known.split(',') {
+            if n.is_empty() {
+                return None;
+            }
+            c.known.push(n.to_string());
+        }
+    }
+    let alias = strip(f[8], "alias:")?;
+    if alias != "-" {
+        for p in alias.split(',') {
+            let (a, k) = p.split_once('=')?;
+            if a.is_empty() || k.is_empty() || k.contains('=') {
+                return None;
+            }
+            c.alias.push((a.to_string(), k.to_string()));
+        }
+    }
+    c.callee = parse_pairs(strip(f[9], "callee:")?)?;
+    c.fwd = parse_pairs(strip(f[10], "fwd:")?)?;
+    let mem: Vec<&str> = strip(f[11], "mem:")?.split(':').collect();
+    if mem.len() != 2 {
+        return None;
+    }
+    c.mem_base = mem[0].parse().ok()?;
+    c.mem = unhex(mem[1])?;
+    c.stack = stack;
+    Some(c)
+}
+
+fn render_pairs(v: &[(String, u64)]) -> String {
+    if v.is_empty() {
+        "-".into()
+    } else {
+        v.iter().map(|(n, x)| format!("{n}={x}")).collect::<Vec<_>>().join(",")
+    }
+}
+
+fn render(c: &Case) -> String {
+    let head = match &c.stack {
+        None => "cfi walk".to_string(),
+        Some((arch, ..)) => format!("cfi stack arch:{arch}"),
+    };
+    let tail = match &c.stack {
+        None => String::new(),
+        Some((_, sp, leaf, st)) => format!(
+            " sp:{sp} leaf:{} strip:{}",
+            *leaf as u8,
+            st.map(|m| m.to_string()).unwrap_or_else(|| "-".into())
+        ),
+    };
+    format!(
+        "{head} base:{} instr:{} ptr:{} init:{}:{}:{} adds:{} known:{} alias:{} callee:{} fwd:{} mem:{}:{}{tail}",
+        c.base,
+        c.instr,
+        c.ptr,
+        c.init_addr,
+        c.init_size,
+        hex(&c.init),
+        if c.adds.is_empty() {
+            "-".to_string()
+        } else {
+            c.adds.iter().map(|(a, r)| format!("{a}:{}", hex(r))).collect::<Vec<_>>().join(";")
+        },
+        if c.known.is_empty() { "-".to_string() } else { c.known.join(",") },
+        if c.alias.is_empty() {
+            "-".to_string()
+        } else {
+            c.alias.iter().map(|(a, k)| format!("{a}={k}")).collect::<Vec<_>>().join(",")
+        },
+        render_pairs(&c.callee),
+        render_pairs(&c.fwd),
+        c.mem_base,
+        hex(&c.mem)
+    )
+}
+
+// ------------------------------------------------------------------------------------ mock
+
+/// The mock `FrameWalker`: shaped after `CfiStackWalker` (minidump-unwind/src/lib.rs).
+struct Mock<'a> {
+    c: &'a Case,
+    cfa: Option<u64>,
+    ra: Option<u64>,
+    regs: Vec<(String, u64)>,
+    /// calls seen (for distribution tags only)
+    sets: u32,
+    clears: u32,
+}
+
+impl<'a> Mock<'a> {
+    fn new(c: &'a Case) -> Self {
+        Mock { c, cfa: None, ra: None, regs: c.fwd.clone(), sets: 0, clears: 0 }
+    }
+    fn memo(&self, name: &str) -> Option<&'a str> {
+        if let Some(k) = self.c.known.iter().find(|k| *k == name) {
+            return Some(k.as_str());
+        }
+        let (_, canon) = self.c.alias.iter().find(|(a, _)| a == name)?;
+        self.c.known.iter().find(|k| *k == canon).map(|k| k.as_str())
+    }
+    fn fits(&self, v: u64) -> bool {
+        self.c.ptr == 8 || v <= u32::MAX as u64
+    }
+}
+
+impl<'a> FrameWalker for Mock<'a> {
+    fn get_instruction(&self) -> u64 {
+        self.c.instr
+    }
+    fn has_grand_callee(&self) -> bool {
+        false
+    }
+    fn get_grand_callee_parameter_size(&self) -> u32 {
+        0
+    }
+    fn get_register_at_address(&self, address: u64) -> Option<u64> {
+        let off = address.checked_sub(self.c.mem_base)? as u128;
+        let n = self.c.ptr as u128;
+        if off + n > self.c.mem.len() as u128 {
+            return None;
+        }
+        let off = off as usize;
+        let mut v = 0u64;
+        for (i, b) in self.c.mem[off..off + self.c.ptr as usize].iter().enumerate() {
+            v |= (*b as u64) << (8 * i);
+        }
+        Some(v)
+    }
+    fn get_callee_register(&self, name: &str) -> Option<u64> {
+        let m = self.memo(name)?;
+        self.c.callee.iter().find(|(n, _)| n == m).map(|(_, v)| *v)
+    }
+    fn set_caller_register(&mut self, name: &str, val: u64) -> Option<()> {
+        let m = self.memo(name)?;
+        if !self.fits(val) {
+            return None;
+        }
+        self.sets += 1;
+        self.regs.retain(|(n, _)| n != m);
+        self.regs.insert(0, (m.to_string(), val));
+        Some(())
+    }
+    fn clear_caller_register(&mut self, name: &str) {
+        if let Some(m) = self.memo(name) {
+            self.clears += 1;
+            self.regs.retain(|(n, _)| n != m);
+        }
+    }
+    fn set_cfa(&mut self, val: u64) -> Option<()> {
+        if !self.fits(val) {
+            return None;
+        }
+        self.cfa = Some(val);
+        Some(())
+    }
+    fn set_ra(&mut self, val: u64) -> Option<()> {
+        if !self.fits(val) {
+            return None;
+        }
+        self.ra = Some(val);
+        Some(())
+    }
+}
+
+fn show_state(cfa: Option<u64>, ra: Option<u64>, regs: &[(String, u64)]) -> String {
+    let mut regs = regs.to_vec();
+    regs.sort_by(|a, b| a.0.as_bytes().cmp(b.0.as_bytes()));
+    let f = |o: Option<u64>| o.map(|v| v.to_string()).unwrap_or_else(|| "-".into());
+    format!(
+        "some cfa={} ra={} regs:{}",
+        f(cfa),
+        f(ra),
+        regs.iter().map(|(n, v)| format!("{n}={v}")).collect::<Vec<_>>().join(",")
+    )
+}
+
+fn symbol_file_text(c: &Case) -> Vec<u8> {
+    let mut t = Vec::new();
+    t.extend_from_slice(b"MODULE Linux x86_64 000000000000000000000000000000000 mod\n");
+    t.extend_from_slice(format!("STACK CFI INIT {:x} {:x} ", c.init_addr, c.init_size).as_bytes());
+    t.extend_from_slice(&c.init);
+    t.push(b'\n');
+    for (a, r) in &c.adds {
+        t.extend_from_slice(format!("STACK CFI {:x} ", a).as_bytes());
+        t.extend_from_slice(r);
+        t.push(b'\n');
+    }
+    t
+}
+
+// ------------------------------------------------------------------------------------ oracle
+// Written from the documentation (walker.rs module docs, sections "STACK CFI", "STACK CFI
+// registers", "STACK CFI expressions"), as trees.
+
+#[derive(Clone, Debug)]
+enum DTok {
+    Bin(u8),
+    Deref,
+    Cfa,
+    Undef,
+    Lit(u64),
+    Reg(String),
+    /// certainly not a value of the documented language and not a register the walker could know
+    Junk,
+    /// the documentation does not say what this token means: the oracle abstains
+    Undoc,
+}
+
+#[derive(Debug)]
+enum Tree {
+    Bin(u8, Box<Tree>, Box<Tree>),
+    Deref(Box<Tree>),
+    Leaf(DTok),
+}
+
+fn is_alnum_name(s: &str) -> bool {
+    !s.is_empty() && s.bytes().all(|b| b.is_ascii_alphanumeric() || b == b'_')
+}
+
+fn doc_token(t: &str) -> DTok {
+    match t {
+        "+" | "-" | "*" | "/" | "%" | "@" => return DTok::Bin(t.as_bytes()[0]),
+        "^" => return DTok::Deref,
+        ".cfa" => return DTok::Cfa,
+        ".undef" => return DTok::Undef,
+        _ => {}
+    }
+    // <a signed decimal integer> (limited to i64 precision)
+    let digits = t.strip_prefix(['+', '-']).unwrap_or(t);
+    if !digits.is_empty() && digits.bytes().all(|b| b.is_ascii_digit()) {
+        let mut v: i128 = 0;
+        let mut big = false;
+        for b in digits.bytes() {
+            v = v * 10 + (b - b'0') as i128;
+            if v > (1i128 << 70) {
+                big = true;
+                v = 1i128 << 70;
+            }
+        }
+        if t.starts_with('-') {
+            v = -v;
+        }
+        if !big && v >= i64::MIN as i128 && v <= i64::MAX as i128 {
+            return DTok::Lit(v as i64 as u64);
+        }
+        return DTok::Junk; // out of range: neither a literal nor (all digits) a register name
+    }
+    if let Some(name) = t.strip_prefix('$') {
+        if is_alnum_name(name) {
+            return DTok::Reg(name.to_string());
+        }
+        return DTok::Undoc;
+    }
+    if t.contains('$') {
+        return DTok::Undoc;
+    }
+    if is_alnum_name(t) {
+        return DTok::Reg(t.to_string());
+    }
+    // not alphanumeric: not a documented value; only a walker knowing such a name could give it a value
+    DTok::Undoc
+}
+
+/// the tree whose postfix form ends at `end` (exclusive); returns it with its start index
+fn build_tree(toks: &[DTok], end: usize) -> Option<(Tree, usize)> {
+    if end == 0 {
+        return None;
+    }
+    match &toks[end - 1] {
+        DTok::Bin(o) => {
+            let (r, s1) = build_tree(toks, end - 1)?;
+            let (l, s2) = build_tree(toks, s1)?;
+            Some((Tree::Bin(*o, Box::new(l), Box::new(r)), s2))
+        }
+        DTok::Deref => {
+            let (p, s) = build_tree(toks, end - 1)?;
+            Some((Tree::Deref(Box::new(p)), s))
+        }
+        t => Some((Tree::Leaf(t.clone()), end - 1)),
+    }
+}
+
+struct DocEnv<'a> {
+    mock: &'a Mock<'a>,
+    cfa: Option<u64>,
+    abstain: std::cell::Cell<bool>,
+}
+
+fn eval_tree(t: &Tree, e: &DocEnv) -> Option<u64> {
+    match t {
+        Tree::Leaf(DTok::Lit(v)) => Some(*v),
+        Tree::Leaf(DTok::Cfa) => e.cfa,
+        Tree::Leaf(DTok::Reg(n)) => e.mock.get_callee_register(n),
+        Tree::Leaf(_) => None,
+        Tree::Deref(p) => {
+            let a = eval_tree(p, e)?;
+            e.mock.get_register_at_address(a)
+        }
+        Tree::Bin(o, l, r) => {
+            // both operands are evaluated: a failure anywhere fails the rule
+            let lv = eval_tree(l, e);
+            let rv = eval_tree(r, e);
+            let (lv, rv) = (lv?, rv?);
+            match o {
+                b'+' => Some(lv.wrapping_add(rv)),
+                b'-' => Some(lv.wrapping_sub(rv)),
+                b'*' => Some(lv.wrapping_mul(rv)),
+                b'/' | b'%' => {
+                    if rv == 0 {
+                        return None;
+                    }
+                    // values are unsigned 64-bit words ("64-bit wrapping"): `/` and `%` are the
+                    // unsigned operations on them
+                    Some(if *o == b'/' { lv / rv } else { lv % rv })
+                }
+                b'@' => {
+                    // "truncate lhs to be a multiple of rhs", rhs a power of two
+                    if rv == 0 || rv.count_ones() != 1 {
+                        return None;
+                    }
+                    Some(lv - lv % rv)
+                }
+                _ => None,
+            }
+        }
+    }
+}
+
+/// `Err(())`: the oracle abstains. `Ok(None)`: the rule fails. `Ok(Some(v))`: its value.
+fn doc_eval(expr: &[&str], mock: &Mock, cfa: Option<u64>) -> Result<Option<u64>, ()> {
+    let toks: Vec<DTok> = expr.iter().map(|t| doc_token(t)).collect();
+    if toks.iter().any(|t| matches!(t, DTok::Undoc)) {
+        return Err(());
+    }
+    if toks.iter().any(|t| matches!(t, DTok::Undef | DTok::Junk)) {
+        return Ok(None);
+    }
+    let Some((tree, start)) = build_tree(&toks, toks.len()) else { return Ok(None) };
+    if start != 0 {
+        return Ok(None); // leftover operands
+    }
+    let env = DocEnv { mock, cfa, abstain: std::cell::Cell::new(false) };
+    let v = eval_tree(&tree, &env);
+    if env.abstain.get() {
+        return Err(());
+    }
+    Ok(v)
+}
+
+#[derive(PartialEq, Eq, Hash, Clone, Debug)]
+enum DReg {
+    Cfa,
+    Ra,
+    Other(String),
+}
+
+/// `REG: EXPR REG: EXPR ...`; `Ok(None)`: malformed line. `Err`: abstain.
+fn doc_parse_line<'a>(line: &'a str, into: &mut Vec<(DReg, Vec<&'a str>)>) -> Result<Option<()>, ()> {
+    let toks: Vec<&str> = line.split_ascii_whitespace().collect();
+    let mut cur: Option<(DReg, Vec<&str>)> = None;
+    let mut commit = |cur: Option<(DReg, Vec<&'a str>)>, into: &mut Vec<(DReg, Vec<&'a str>)>| -> bool {
+        match cur {
+            None => true,
+            Some((_, e)) if e.is_empty() => false,
+            Some((r, e)) => {
+                into.retain(|(k, _)| *k != r);
+                into.push((r, e));
+                true
+            }
+        }
+    };
+    for t in toks {
+        if let Some(label) = t.strip_suffix(':') {
+            if !commit(cur.take(), into) {
+                return Ok(None);
+            }
+            let reg = if label == ".cfa" {
+                DReg::Cfa
+            } else if label == ".ra" {
+                DReg::Ra
+            } else {
+                let name = label.strip_prefix('$').unwrap_or(label);
+                if !is_alnum_name(name) {
+                    return Err(()); // REG is `.cfa`, `.ra`, `$<alphanumeric>` or `<alphanumeric>`
+                }
+                DReg::Other(name.to_string())
+            };
+            cur = Some((reg, vec![]));
+        } else {
+            match cur.as_mut() {
+                None => return Ok(None), // a line must start with a REG:
+                Some((_, e)) => e.push(t),
+            }
+        }
+    }
+    if cur.is_none() || !commit(cur.take(), into) {
+        return Ok(None);
+    }
+    Ok(Some(()))
+}
+
+/// What the documentation prescribes for this case. `Err(why)`: the oracle abstains.
+/// (cfa, ra, registers as the property prescribes, registers when a value that does not fit the
+/// register is left alone — the defect fixed by 15b778b; a result equal to it gets its own class)
+type DocState = Option<(u64, u64, Vec<(String, u64)>, Vec<(String, u64)>)>;
+
+fn doc_expect(c: &Case, mock0: &Mock) -> Result<DocState, &'static str> {
+    if c.instr < c.base {
+        return Ok(None);
+    }
+    let a = c.instr - c.base;
+    // the INIT record covers `num_bytes` from its address
+    let covered = c.init_size != 0
+        && c.init_addr.checked_add(c.init_size).is_some()
+        && a >= c.init_addr
+        && a - c.init_addr < c.init_size;
+    if !covered {
+        return Ok(None);
+    }
+    // "start with its STACK CFI INIT and then apply all the applicable STACK CFI diffs in order"
+    let mut app: Vec<&(u64, Vec<u8>)> = c.adds.iter().filter(|(x, _)| *x <= a).collect();
+    app.sort_by_key(|(x, _)| *x);
+    for w in app.windows(2) {
+        if w[0].0 == w[1].0 && w[0].1 != w[1].1 {
+            return Err("two-deltas-one-address");
+        }
+    }
+    let mut lines: Vec<&str> = vec![std::str::from_utf8(&c.init).map_err(|_| "utf8")?];
+    for (_, r) in app {
+        lines.push(std::str::from_utf8(r).map_err(|_| "utf8")?);
+    }
+    let mut rules: Vec<(DReg, Vec<&str>)> = vec![];
+    for l in lines {
+        match doc_parse_line(l, &mut rules) {
+            Err(()) => return Err("undocumented-label"),
+            Ok(None) => return Ok(None),
+            Ok(Some(())) => {}
+        }
+    }
+    let find = |r: &DReg| rules.iter().find(|(k, _)| k == r).map(|(_, e)| e.clone());
+    // ".cfa and .ra must always have defined rules, or the STACK CFI is malformed."
+    let (Some(cfa_e), Some(ra_e)) = (find(&DReg::Cfa), find(&DReg::Ra)) else { return Ok(None) };
+    let Some(cfa) = doc_eval(&cfa_e, mock0, None).map_err(|_| "undocumented-token")? else { return Ok(None) };
+    let Some(ra) = doc_eval(&ra_e, mock0, Some(cfa)).map_err(|_| "undocumented-token")? else { return Ok(None) };
+    if !mock0.fits(cfa) || !mock0.fits(ra) {
+        return Ok(None);
+    }
+    let mut regs: Vec<(String, u64)> = c.fwd.clone();
+    let mut lenient: Vec<(String, u64)> = c.fwd.clone();
+    // Two labels may denote one register through an alias (`fp:` and `x29:`): the rules are then
+    // applied in the order of their names (walker.rs:526-535, "make it the order of the names").
+    let mut named: Vec<(&str, &Vec<&str>)> = rules
+        .iter()
+        .filter_map(|(r, e)| match r {
+            DReg::Other(n) => Some((n.as_str(), e)),
+            _ => None,
+        })
+        .collect();
+    named.sort_by(|a, b| a.0.as_bytes().cmp(b.0.as_bytes()));
+    for (name, e) in named {
+        let Some(m) = mock0.memo(name) else { continue }; // a register the walker does not have
+        match doc_eval(e, mock0, Some(cfa)).map_err(|_| "undocumented-token")? {
+            Some(v) if mock0.fits(v) => {
+                regs.retain(|(n, _)| n != m);
+                regs.push((m.to_string(), v));
+                lenient.retain(|(n, _)| n != m);
+                lenient.push((m.to_string(), v));
+            }
+            // a value the register cannot hold is not a value of the register: unknown
+            Some(_) => regs.retain(|(n, _)| n != m),
+            None => {
+                regs.retain(|(n, _)| n != m);
+                lenient.retain(|(n, _)| n != m);
+            }
+        }
+    }
+    Ok(Some((cfa, ra, regs, lenient)))
+}
+
+// ------------------------------------------------------------------------------------ generator
+
+const REGS64: &[&str] = &["rsp", "rbp", "rbx", "rip", "r12"];
+const OPS: &[&str] = &["+", "-", "*", "/", "%", "@", "^"];
+
+fn lit_pool(rng: &mut Rng) -> String {
+    const FIXED: &[&str] = &[
+        "0", "1", "2", "3", "4", "8", "16", "24", "7", "-1", "-8", "-16", "+5", "007", "-0", "4294967295", "4294967296",
+        "9223372036854775807", "9223372036854775808", "-9223372036854775808", "-9223372036854775809",
+        "18446744073709551615", "99999999999999999999999", "4096", "32",
+    ];
+    if rng.chance(3, 4) {
+        rng.pick(FIXED).to_string()
+    } else {
+        let v = rng.next() as i64 >> rng.below(64);
+        v.to_string()
+    }
+}
+
+fn junk_pool(rng: &mut Rng) -> String {
+    const J: &[&str] = &[
+        "0x10", "1e3", "--", "+-", "é", "foo", ".ra", "ab$rax", "$", "$$rbx", "rbx$", "5$", "-", ".cfa.", ".undefx", "^^",
+        "+1+", "1_0", " ", "\t", "\u{c}", "@@", "$.cfa", "٣", "1:", "$rsp$rbp",
+    ];
+    rng.pick(J).to_string()
+}
+
+fn reg_token(c: &Case, rng: &mut Rng) -> String {
+    let mut names: Vec<String> = c.known.clone();
+    names.extend(c.alias.iter().map(|(a, _)| a.clone()));
+    names.push("nosuch".into());
+    let n = rng.pick(&names).clone();
+    if rng.chance(1, 2) {
+        format!("${n}")
+    } else {
+        n
+    }
+}
+
+/// a random expression in postfix: a tree rendered, then possibly damaged
+fn gen_expr(c: &Case, rng: &mut Rng, depth: u32, allow_cfa: bool, out: &mut Vec<String>) {
+    let leaf = depth == 0 || rng.chance(2, 5);
+    if leaf {
+        match rng.below(20) {
+            0..=6 => out.push(lit_pool(rng)),
+            7..=12 => out.push(reg_token(c, rng)),
+            13..=16 => out.push(if allow_cfa || rng.chance(1, 8) { ".cfa".into() } else { reg_token(c, rng) }),
+            17 => out.push(".undef".into()),
+            18 => out.push(junk_pool(rng)),
+            _ => out.push(lit_pool(rng)),
+        }
+        return;
+    }
+    if rng.chance(1, 4) {
+        gen_expr(c, rng, depth - 1, allow_cfa, out);
+        out.push("^".into());
+    } else {
+        gen_expr(c, rng, depth - 1, allow_cfa, out);
+        // the right operand is often a small constant / power of two so that `/ % @` succeed
+        if rng.chance(1, 2) {
+            out.push(rng.pick(&["8", "4", "16", "1", "2", "0", "3", "-8", "32"]).to_string());
+        } else {
+            gen_expr(c, rng, depth - 1, allow_cfa, out);
+        }
+        out.push(rng.pick(&["+", "+", "-", "-", "*", "/", "%", "@", "@"]).to_string());
+    }
+}
+
+fn damage(toks: &mut Vec<String>, c: &Case, rng: &mut Rng) {
+    match rng.below(6) {
+        0 if !toks.is_empty() => {
+            let i = rng.below(toks.len() as u64) as usize;
+            toks.remove(i);
+        }
+        1 => {
+            let i = rng.below(toks.len() as u64 + 1) as usize;
+            toks.insert(i, rng.pick(OPS).to_string());
+        }
+        2 => {
+            let i = rng.below(toks.len() as u64 + 1) as usize;
+            toks.insert(i, lit_pool(rng));
+        }
+        3 if toks.len() >= 2 => {
+            let i = rng.below(toks.len() as u64 - 1) as usize;
+            toks.swap(i, i + 1);
+        }
+        4 => {
+            let i = rng.below(toks.len() as u64 + 1) as usize;
+            toks.insert(i, junk_pool(rng));
+        }
+        _ => {
+            let i = rng.below(toks.len() as u64 + 1) as usize;
+            toks.insert(i, reg_token(c, rng));
+        }
+    }
+}
+
+fn join_ws(toks: &[String], rng: &mut Rng) -> String {
+    let mut s = String::new();
+    for (i, t) in toks.iter().enumerate() {
+        if i > 0 {
+            match rng.below(12) {
+                0 => s.push_str("  "),
+                1 => s.push('\t'),
+                2 => s.push_str(" \u{c} "),
+                _ => s.push(' '),
+            }
+        }
+        s.push_str(t);
+    }
+    s
+}
+
+/// a typical 64-bit walker: registers, aliases, a stack image around rsp
+fn walker64(rng: &mut Rng) -> Case {
+    let mut c = Case { ptr: 8, ..Default::default() };
+    c.known = REGS64.iter().map(|s| s.to_string()).collect();
+    c.known.push("x29".into());
+    c.alias = vec![("fp".into(), "x29".into()), ("sp".into(), "rsp".into())];
+    let sp = match rng.below(8) {
+        0 => 0,
+        1 => u64::MAX - 15,
+        2 => 0x1000,
+        _ => 0x1000 + 8 * rng.below(8),
+    };
+    c.mem_base = match rng.below(6) {
+        0 => sp.wrapping_add(8),
+        1 => sp.saturating_sub(16),
+        _ => sp,
+    };
+    let len = match rng.below(6) {
+        0 => 0,
+        1 => 7,
+        2 => 12,
+        _ => 16 + 8 * rng.below(8),
+    };
+    for i in 0..len {
+        let b = match rng.below(4) {
+            0 => 0,
+            1 => 0xff,
+            _ => rng.below(256) as u8,
+        };
+        // mostly small little-endian words
+        c.mem.push(if i % 8 >= 2 && rng.chance(3, 4) { 0 } else { b });
+    }
+    let val = |rng: &mut Rng| match rng.below(8) {
+        0 => 0,
+        1 => u64::MAX,
+        2 => 1 << 63,
+        3 => 0xffff_ffff,
+        4 => 0x1_0000_0000,
+        _ => 0x1000 + rng.below(0x100),
+    };
+    c.callee.push(("rsp".into(), sp));
+    for r in ["rbp", "rbx", "rip", "r12", "x29"] {
+        if rng.chance(4, 5) {
+            c.callee.push((r.into(), val(rng)));
+        }
+    }
+    for (n, v) in c.callee.clone() {
+        if n != "rsp" && n != "rip" && rng.chance(2, 3) {
+            c.fwd.push((n, v));
+        }
+    }
+    c
+}
+
+fn walker32(rng: &mut Rng) -> Case {
+    let mut c = walker64(rng);
+    c.ptr = 4;
+    for (_, v) in c.callee.iter_mut().chain(c.fwd.iter_mut()) {
+        *v &= 0xffff_ffff;
+    }
+    c
+}
+
+fn label(c: &Case, rng: &mut Rng) -> String {
+    match rng.below(24) {
+        0 => ":".into(),
+        1 => "$:".into(),
+        2 => "$.cfa:".into(),
+        3 => "5:".into(),
+        4 => "nosuch:".into(),
+        5 => ".undef:".into(),
+        6 => "$.ra:".into(),
+        _ => {
+            let mut names: Vec<String> = c.known.clone();
+            names.extend(c.alias.iter().map(|(a, _)| a.clone()));
+            let n = rng.pick(&names).clone();
+            if rng.chance(1, 2) {
+                format!("${n}:")
+            } else {
+                format!("{n}:")
+            }
+        }
+    }
+}
+
+/// one rules line: some of `.cfa:`, `.ra:` and other registers
+fn gen_line(c: &Case, rng: &mut Rng, want_cfa: bool, want_ra: bool, others: u64) -> String {
+    let mut parts: Vec<Vec<String>> = vec![];
+    if want_cfa {
+        let mut e = vec![];
+        if rng.chance(3, 4) {
+            e = vec!["$rsp".into(), rng.pick(&["8", "16", "0", "24"]).to_string(), "+".into()];
+        } else {
+            gen_expr(c, rng, 2, false, &mut e);
+        }
+        e.insert(0, ".cfa:".into());
+        parts.push(e);
+    }
+    if want_ra {
+        let mut e = vec![];
+        if rng.chance(1, 2) {
+            e = vec![".cfa".into(), rng.pick(&["-8", "-16", "0", "8"]).to_string(), "+".into(), "^".into()];
+        } else {
+            gen_expr(c, rng, 3, true, &mut e);
+        }
+        e.insert(0, ".ra:".into());
+        parts.push(e);
+    }
+    for _ in 0..others {
+        let mut e = vec![];
+        let d = 1 + rng.below(3) as u32;
+        gen_expr(c, rng, d, true, &mut e);
+        if rng.chance(1, 4) {
+            damage(&mut e, c, rng);
+        }
+        e.insert(0, label(c, rng));
+        parts.push(e);
+    }
+    // order of the rules inside a line is free
+    if rng.chance(1, 3) && parts.len() > 1 {
+        let i = rng.below(parts.len() as u64) as usize;
+        let p = parts.remove(i);
+        parts.push(p);
+    }
+    let mut toks: Vec<String> = parts.into_iter().flatten().collect();
+    if rng.chance(1, 10) {
+        damage(&mut toks, c, rng);
+    }
+    join_ws(&toks, rng)
+}
+
+fn lookups_around(c: &Case) -> Vec<u64> {
+    let mut v: Vec<u64> = vec![];
+    let mut push = |x: Option<u64>| {
+        if let Some(x) = x {
+            if !v.contains(&x) {
+                v.push(x);
+            }
+        }
+    };
+    push(c.init_addr.checked_sub(1));
+    push(Some(c.init_addr));
+    push(c.init_addr.checked_add(c.init_size).and_then(|e| e.checked_sub(1)));
+    push(c.init_addr.checked_add(c.init_size));
+    for (a, _) in &c.adds {
+        push(a.checked_sub(1));
+        push(Some(*a));
+        push(a.checked_add(1));
+    }
+    v
+}
+
+impl Cfi {
+    /// exhaustive: every program over `alphabet` of length 1..=len, placed as the cfa rule, the ra
+    /// rule and an ordinary register's rule, against a fixed walker
+    fn gen_exhaustive_exprs(&self, len: usize, emit: &mut dyn FnMut(String)) {
+        const ALPHA: &[&str] = &["+", "-", "*", "/", "%", "@", "^", ".cfa", ".undef", "$rsp", "8", "0", "-3", "rbx"];
+        let mut c = Case { ptr: 8, base: 0x4000, init_addr: 0x10, init_size: 0x10, instr: 0x4012, ..Default::default() };
+        c.known = vec!["rsp".into(), "rbx".into(), "rbp".into()];
+        c.callee = vec![("rsp".into(), 0x1008), ("rbx".into(), 0x1010)];
+        c.fwd = vec![("rbx".into(), 0x1010), ("rbp".into(), 77)];
+        c.mem_base = 0x1000;
+        for i in 0..6u64 {
+            c.mem.extend_from_slice(&(0x1000 + 8 * ((i * 5) % 6)).to_le_bytes());
+        }
+        let mut idx = vec![0usize; 0];
+        for l in 1..=len {
+            idx.clear();
+            idx.resize(l, 0);
+            loop {
+                let e = idx.iter().map(|i| ALPHA[*i]).collect::<Vec<_>>().join(" ");
+                for shape in 0..3 {
+                    let mut k = c.clone();
+                    k.init = match shape {
+                        0 => format!(".cfa: {e} .ra: .cfa ^"),
+                        1 => format!(".cfa: $rsp 8 + .ra: {e}"),
+                        _ => format!(".cfa: $rsp 8 + .ra: .cfa ^ $rbx: {e}"),
+                    }
+                    .into_bytes();
+                    emit(render(&k));
+                }
+                // next
+                let mut p = l;
+                loop {
+                    if p == 0 {
+                        break;
+                    }
+                    p -= 1;
+                    idx[p] += 1;
+                    if idx[p] < ALPHA.len() {
+                        break;
+                    }
+                    idx[p] = 0;
+                    if p == 0 {
+                        p = usize::MAX;
+                        break;
+                    }
+                }
+                if p == usize::MAX {
+                    break;
+                }
+            }
+        }
+    }
+
+    /// exhaustive: every line over a label/value alphabet up to `len` tokens (parse paths)
+    fn gen_exhaustive_lines(&self, len: usize, emit: &mut dyn FnMut(String)) {
+        const ALPHA: &[&str] = &[".cfa:", ".ra:", "$rbx:", "rbx:", "8", "$rsp", "+", ".cfa", "^"];
+        let mut c = Case { ptr: 8, base: 0, init_addr: 0x10, init_size: 0x10, instr: 0x12, ..Default::default() };
+        c.known = vec!["rsp".into(), "rbx".into()];
+        c.callee = vec![("rsp".into(), 0x1008), ("rbx".into(), 5)];
+        c.fwd = vec![("rbx".into(), 5)];
+        c.mem_base = 0x1000;
+        for i in 0..4u64 {
+            c.mem.extend_from_slice(&(0x2000 + i).to_le_bytes());
+        }
+        let n = ALPHA.len();
+        for l in 0..=len {
+            let total = n.pow(l as u32);
+            for mut code in 0..total {
+                let mut toks = vec![];
+                for _ in 0..l {
+                    toks.push(ALPHA[code % n]);
+                    code /= n;
+                }
+                let mut k = c.clone();
+                k.init = toks.join(" ").into_bytes();
+                emit(render(&k));
+                // the same line as a delta over a complete INIT
+                if l <= len.saturating_sub(1) {
+                    let mut k = c.clone();
+                    k.init = b".cfa: $rsp 8 + .ra: .cfa ^".to_vec();
+                    k.adds = vec![(0x11, toks.join(" ").into_bytes())];
+                    emit(render(&k));
+                }
+            }
+        }
+    }
+
+    /// exhaustive: up to two delta records from a small set × addresses × every lookup address
+    fn gen_exhaustive_deltas(&self, emit: &mut dyn FnMut(String)) {
+        const RULES: &[&str] = &[".cfa: $rsp 16 +", "$rbx: .cfa 16 - ^", "$rbx: .undef", ".ra: 1", "$rbx: 1 .cfa: $rsp", "rbx: 2"];
+        let mut c = Case { ptr: 8, base: 0x100, init_addr: 0x10, init_size: 4, ..Default::default() };
+        c.known = vec!["rsp".into(), "rbx".into()];
+        c.callee = vec![("rsp".into(), 0x1008), ("rbx".into(), 5)];
+        c.fwd = vec![("rbx".into(), 5)];
+        c.mem_base = 0x1000;
+        for i in 0..6u64 {
+            c.mem.extend_from_slice(&(0x2000 + i).to_le_bytes());
+        }
+        c.init = b".cfa: $rsp 8 + .ra: .cfa 8 - ^ $rbx: 1".to_vec();
+        let addrs = [0xfu64, 0x10, 0x11, 0x12, 0x14];
+        let mut deltas: Vec<(u64, Vec<u8>)> = vec![];
+        for a in addrs {
+            for r in RULES {
+                deltas.push((a, r.as_bytes().to_vec()));
+            }
+        }
+        let mut sets: Vec<Vec<(u64, Vec<u8>)>> = vec![vec![]];
+        for d in &deltas {
+            sets.push(vec![d.clone()]);
+        }
+        for d in &deltas {
+            for e in &deltas {
+                sets.push(vec![d.clone(), e.clone()]);
+            }
+        }
+        for s in sets {
+            for look in 0xeu64..=0x15 {
+                let mut k = c.clone();
+                k.adds = s.clone();
+                k.instr = k.base + look;
+                emit(render(&k));
+            }
+        }
+    }
+
+    fn gen_random(&self, rng: &mut Rng) -> String {
+        let mut c = if rng.chance(1, 4) { walker32(rng) } else { walker64(rng) };
+        c.base = match rng.below(6) {
+            0 => 0,
+            1 => u64::MAX - 0x100,
+            _ => 0x4000 * (1 + rng.below(4)),
+        };
+        c.init_addr = match rng.below(10) {
+            0 => 0,
+            1 => u64::MAX - 7,
+            2 => u64::MAX - 8,
+            _ => 0x10 * (1 + rng.below(16)),
+        };
+        c.init_size = match rng.below(10) {
+            0 => 0,
+            1 => 1,
+            2 => u32::MAX as u64,
+            _ => 1 + rng.below(0x20),
+        };
+        if c.init_addr > u64::MAX - 0x100 && rng.chance(1, 2) {
+            c.init_size = 8;
+        }
+        let n_others = rng.below(4);
+        // sometimes leave out a mandatory rule
+        let (wc, wr) = (!rng.chance(1, 16), !rng.chance(1, 16));
+        c.init = gen_line(&c, rng, wc, wr, n_others).into_bytes();
+        let n_adds = match rng.below(6) {
+            0 | 1 => 0,
+            2 | 3 => 1,
+            4 => 2,
+            _ => 3 + rng.below(3),
+        };
+        for _ in 0..n_adds {
+            let a = match rng.below(8) {
+                0 => c.init_addr.wrapping_sub(1),
+                1 => c.init_addr,
+                2 => c.init_addr.wrapping_add(c.init_size),
+                3 if !c.adds.is_empty() => c.adds[rng.below(c.adds.len() as u64) as usize].0,
+                _ => c.init_addr.wrapping_add(rng.below(c.init_size.max(1).min(0x40))),
+            };
+            let (dc, dr, dn) = (rng.chance(1, 2), rng.chance(1, 6), rng.below(3));
+            let line = if !dc && !dr && dn == 0 {
+                gen_line(&c, rng, true, false, 0)
+            } else {
+                gen_line(&c, rng, dc, dr, dn)
+            };
+            c.adds.push((a, line.into_bytes()));
+        }
+        let looks = lookups_around(&c);
+        let look = if rng.chance(5, 6) {
+            *rng.pick(&looks)
+        } else {
+            c.init_addr.wrapping_add(rng.below(c.init_size.max(1).min(0x40)))
+        };
+        c.instr = if rng.chance(1, 40) { c.base.wrapping_sub(1) } else { c.base.wrapping_add(look) };
+        render(&c)
+    }
+
+    /// a long single expression (beyond the exhaustive bound)
+    fn gen_long_expr(&self, rng: &mut Rng) -> String {
+        let mut c = if rng.chance(1, 5) { walker32(rng) } else { walker64(rng) };
+        c.base = 0x4000;
+        c.init_addr = 0x20;
+        c.init_size = 0x10;
+        c.instr = 0x4020 + rng.below(0x10);
+        let mut e = vec![];
+        let d = 2 + rng.below(4) as u32;
+        gen_expr(&c, rng, d, true, &mut e);
+        e.truncate(24);
+        for _ in 0..rng.below(3) {
+            if rng.chance(1, 3) {
+                damage(&mut e, &c, rng);
+            }
+        }
+        let e = join_ws(&e, rng);
+        c.init = match rng.below(3) {
+            0 => format!(".cfa: $rsp 8 + .ra: {e}"),
+            1 => format!(".cfa: $rsp 8 + .ra: .cfa 8 - ^ $rbx: {e}"),
+            _ => format!(".cfa: $rsp 8 + .ra: .cfa 8 - ^ fp: {e} x29: $rbx"),
+        }
+        .into_bytes();
+        render(&c)
+    }
+}
+
+// ------------------------------------------------------------------------------------ engine
 
 impl Engine for Cfi {
     fn name(&self) -> &'static str {
         "cfi"
     }
     fn rule(&self) -> String {
-        "not implemented".into()
+        "SymbolFile::walk_frame on a generated CFI-only symbol file with a mock FrameWalker vs the Lean model \
+         (MdModel.Cfi.walkFrameO) and vs an independent tree evaluation written from the walker.rs documentation; \
+         non-trivial = the record covers the lookup address, the rules parse, and some rule has an operator"
+            .into()
     }
-    fn generate(&self, _tier: Tier, _rng: &mut Rng, _emit: &mut dyn FnMut(String)) {}
-    fn exec(&self, _case: &str) -> ImplResult {
-        ImplResult::default()
+    fn exhaustive_part(&self) -> Option<String> {
+        Some(
+            "every program of 1..=4 (quick) / 1..=5 (thorough) tokens over {+,-,*,/,%,@,^,.cfa,.undef,$rsp,8,0,-3,rbx} as \
+             the cfa rule, the ra rule and an ordinary register's rule; every rules line of 0..=5 (quick) / 0..=6 \
+             (thorough) tokens over {.cfa:,.ra:,$rbx:,rbx:,8,$rsp,+,.cfa,^} as INIT and as a delta; every choice of <=2 \
+             delta records from 6 rule texts x 5 addresses x every lookup address from init-2 to init+size+1"
+                .into(),
+        )
     }
+    fn generate(&self, tier: Tier, rng: &mut Rng, emit: &mut dyn FnMut(String)) {
+        let (elen, llen, nrand) = match tier {
+            Tier::Quick => (4, 5, 120_000),
+            Tier::Thorough => (5, 6, 1_500_000),
+        };
+        self.gen_exhaustive_deltas(emit);
+        self.gen_exhaustive_lines(llen, emit);
+        self.gen_exhaustive_exprs(elen, emit);
+        let nstack = match tier {
+            Tier::Quick => 30_000,
+            Tier::Thorough => 300_000,
+        };
+        for _ in 0..nstack {
+            emit(gen_stack(rng));
+        }
+        for i in 0..nrand {
+            if i % 3 == 0 {
+                emit(self.gen_long_expr(rng));
+            } else {
+                emit(self.gen_random(rng));
+            }
+        }
+    }
+
+    fn exec(&self, case: &str) -> ImplResult {
+        let mut res = ImplResult::default();
+        let Some(c) = parse_case(case) else {
+            res.out = "bad-op".into();
+            return res;
+        };
+        let text_ok = |r: &[u8]| std::str::from_utf8(r).is_ok() && !r.iter().any(|b| *b == b'\r' || *b == b'\n');
+        if !text_ok(&c.init) || !c.adds.iter().all(|(_, r)| text_ok(r)) {
+            res.out = "bad-op".into();
+            return res;
+        }
+        if c.stack.is_some() {
+            return exec_stack(&c);
+        }
+        let sym = match catch(|| SymbolFile::from_bytes(&symbol_file_text(&c))) {
+            Ok(Ok(s)) => s,
+            Ok(Err(e)) => {
+                res.out = format!("symfile-error {e:?}").replace(' ', "_");
+                return res;
+            }
+            Err(msg) => {
+                res.out = "PANIC".into();
+                res.oracle.push(("parse-panics".into(), msg));
+                return res;
+            }
+        };
+        let module = MinidumpModule::new(c.base, 0x10000, "mod");
+        let mut mock = Mock::new(&c);
+        let r = catch(|| sym.walk_frame(&module, &mut mock));
+        let pristine = Mock::new(&c);
+        // the result may not depend on the iteration order of the rule map (a fresh map, with a
+        // fresh hash seed, is built by every call)
+        if let Ok(first) = &r {
+            let first_state = (first.is_some(), mock.cfa, mock.ra, mock.regs.clone());
+            for _ in 0..3 {
+                let mut again = Mock::new(&c);
+                if let Ok(r2) = catch(|| sym.walk_frame(&module, &mut again)) {
+                    let st = (r2.is_some(), again.cfa, again.ra, again.regs.clone());
+                    if r2.is_some() && st != first_state {
+                        res.oracle.push((
+                            "nondeterministic-result".into(),
+                            format!("{} vs {}", show_state(mock.cfa, mock.ra, &mock.regs), show_state(again.cfa, again.ra, &again.regs)),
+                        ));
+                        break;
+                    }
+                }
+            }
+        }
+        match r {
+            Err(msg) => {
+                res.out = "PANIC".into();
+                res.oracle.push(("walk-panics".into(), msg));
+                return res;
+            }
+            Ok(None) => res.out = "none".into(),
+            Ok(Some(())) => {
+                res.out = show_state(mock.cfa, mock.ra, &mock.regs);
+                // cfa and ra are mandatory: a successful walk has set both
+                if mock.cfa.is_none() || mock.ra.is_none() {
+                    res.oracle.push(("success-without-cfa-or-ra".into(), res.out.clone()));
+                }
+            }
+        }
+        // tags / non-triviality
+        let covered = c.instr >= c.base && {
+            let a = c.instr - c.base;
+            c.init_size != 0 && c.init_addr.checked_add(c.init_size).is_some() && a >= c.init_addr && a - c.init_addr < c.init_size
+        };
+        let all_text: Vec<&[u8]> = std::iter::once(&c.init[..]).chain(c.adds.iter().map(|(_, r)| &r[..])).collect();
+        let has_op = all_text.iter().any(|t| {
+            std::str::from_utf8(t).unwrap().split_ascii_whitespace().any(|k| OPS.contains(&k))
+        });
+        res.tags.push(if res.out == "none" { "result:none".into() } else { "result:some".into() });
+        res.tags.push(format!("ptr:{}", c.ptr));
+        res.tags.push(format!("adds:{}", c.adds.len().min(4)));
+        if !covered {
+            res.tags.push("lookup-outside-record".into());
+        }
+        if mock.sets > 0 {
+            res.tags.push("other-reg-set".into());
+        }
+        if mock.clears > 0 {
+            res.tags.push("other-reg-cleared".into());
+        }
+        let applicable = c.adds.iter().filter(|(a, _)| c.instr >= c.base && *a <= c.instr - c.base).count();
+        if applicable > 0 {
+            res.tags.push("delta-applied".into());
+        }
+        if applicable < c.adds.len() {
+            res.tags.push("delta-ignored".into());
+        }
+        res.nontrivial = covered && has_op && (res.out != "none" || mock.sets + mock.clears > 0 || applicable > 0);
+        // ---- the documented semantics, evaluated independently
+        match doc_expect(&c, &pristine).map(|w| match w {
+            None => ("none".to_string(), "none".to_string()),
+            Some((cfa, ra, regs, len)) => (show_state(Some(cfa), Some(ra), &regs), show_state(Some(cfa), Some(ra), &len)),
+        }) {
+            Ok((want, lenient)) => {
+                if want != res.out {
+                    // a rule whose value does not fit the register: neither set nor marked unknown
+                    let class = if res.out == lenient {
+                        "reg-neither-set-nor-cleared"
+                    } else {
+                        "differs-from-documented-semantics"
+                    };
+                    res.oracle.push((class.into(), format!("documented: {want}  implementation: {}", res.out)));
+                }
+                res.tags.push("oracle:decided".into());
+            }
+            Err(why) => res.tags.push(format!("oracle:abstains:{why}")),
+        }
+        res
+    }
+
+    fn shrink(&self, case: &str, still_fails: &dyn Fn(&str) -> bool) -> String {
+        let Some(mut c) = parse_case(case) else { return case.to_string() };
+        let toks = |r: &[u8]| -> Vec<String> {
+            String::from_utf8_lossy(r).split_ascii_whitespace().map(|s| s.to_string()).collect()
+        };
+        let mut progress = true;
+        let mut rounds = 0;
+        while progress && rounds < 20 {
+            progress = false;
+            rounds += 1;
+            // drop delta records
+            let mut i = 0;
+            while i < c.adds.len() {
+                let mut k = c.clone();
+                k.adds.remove(i);
+                if still_fails(&render(&k)) {
+                    c = k;
+                    progress = true;
+                } else {
+                    i += 1;
+                }
+            }
+            // drop tokens of every line (normalising whitespace)
+            for line in 0..=c.adds.len() {
+                let cur = if line == 0 { c.init.clone() } else { c.adds[line - 1].1.clone() };
+                let mut t = toks(&cur);
+                let mut i = 0;
+                while i < t.len() {
+                    let mut u = t.clone();
+                    u.remove(i);
+                    let mut k = c.clone();
+                    let bytes = u.join(" ").into_bytes();
+                    if line == 0 {
+                        k.init = bytes
+                    } else {
+                        k.adds[line - 1].1 = bytes
+                    }
+                    if still_fails(&render(&k)) {
+                        c = k;
+                        t = u;
+                        progress = true;
+                    } else {
+                        i += 1;
+                    }
+                }
+            }
+            // simplify the walker
+            macro_rules! try_drop {
+                ($field:ident) => {
+                    let mut i = 0;
+                    while i < c.$field.len() {
+                        let mut k = c.clone();
+                        k.$field.remove(i);
+                        if still_fails(&render(&k)) {
+                            c = k;
+                            progress = true;
+                        } else {
+                            i += 1;
+                        }
+                    }
+                };
+            }
+            if c.stack.is_none() {
+                try_drop!(fwd);
+                try_drop!(callee);
+                try_drop!(alias);
+                try_drop!(known);
+            }
+            if !c.mem.is_empty() && c.stack.is_none() {
+                let mut k = c.clone();
+                k.mem.clear();
+                if still_fails(&render(&k)) {
+                    c = k;
+                    progress = true;
+                }
+            }
+        }
+        render(&c)
+    }
+}
+
+// ------------------------------------------------------------------------------------ walk_stack
+// `stack` cases: the real `CfiStackWalker` through `minidump_unwind::walk_stack` on a CFI-only
+// symbol file; the case line carries the walker description (derived from the tables below) so
+// that the Lean model answers it like a `walk` case followed by `stackGlue`.
+
+struct Arch {
+    name: &'static str,
+    ptr: u32,
+    regs: &'static [&'static str],
+    alias: &'static [(&'static str, &'static str)],
+    saved: &'static [&'static str],
+    sp: &'static str,
+    ip: &'static str,
+    leaf: bool,
+    strip: Option<u64>,
+}
+
+const ARCHS: &[Arch] = &[
+    Arch {
+        name: "x86",
+        ptr: 4,
+        regs: &["eip", "esp", "ebp", "ebx", "esi", "edi", "eax", "ecx", "edx", "eflags"],
+        alias: &[],
+        saved: &["ebp", "ebx", "edi", "esi"],
+        sp: "esp",
+        ip: "eip",
+        leaf: false,
+        strip: None,
+    },
+    Arch {
+        name: "amd64",
+        ptr: 8,
+        regs: &[
+            "rax", "rdx", "rcx", "rbx", "rsi", "rdi", "rbp", "rsp", "r8", "r9", "r10", "r11", "r12", "r13", "r14", "r15",
+            "rip",
+        ],
+        alias: &[],
+        saved: &["rbx", "rbp", "r12", "r13", "r14", "r15"],
+        sp: "rsp",
+        ip: "rip",
+        leaf: false,
+        strip: None,
+    },
+    Arch {
+        name: "arm64",
+        ptr: 8,
+        regs: &[
+            "x0", "x1", "x2", "x3", "x4", "x5", "x6", "x7", "x8", "x9", "x10", "x11", "x12", "x13", "x14", "x15", "x16",
+            "x17", "x18", "x19", "x20", "x21", "x22", "x23", "x24", "x25", "x26", "x27", "x28", "fp", "lr", "sp", "pc",
+        ],
+        alias: &[("x29", "fp"), ("x30", "lr")],
+        saved: &["x19", "x20", "x21", "x22", "x23", "x24", "x25", "x26", "x27", "x28", "fp"],
+        sp: "sp",
+        ip: "pc",
+        leaf: true,
+        strip: Some((1 << 47) - 1),
+    },
+];
+
+const MODULE_SIZE: u32 = 0x10000;
+
+/// the walker description an architecture's glue gives `walk_frame` for a context with the
+/// register values `callee` (all valid) — what the `stack` case line must carry
+fn arch_walker(a: &Arch, callee: &[(String, u64)]) -> Case {
+    let mut c = Case { ptr: a.ptr, ..Default::default() };
+    c.known = a.regs.iter().map(|s| s.to_string()).collect();
+    c.alias = a.alias.iter().map(|(x, y)| (x.to_string(), y.to_string())).collect();
+    c.callee = callee.to_vec();
+    for r in a.saved {
+        if let Some((n, v)) = callee.iter().find(|(n, _)| n == r) {
+            c.fwd.push((n.clone(), *v));
+        }
+    }
+    let sp = callee.iter().find(|(n, _)| n == a.sp).map(|(_, v)| *v).unwrap_or(0);
+    c.stack = Some((a.name.to_string(), sp, a.leaf, a.strip));
+    c
+}
+
+fn run_walk_stack(a: &Arch, c: &Case) -> Result<String, String> {
+    use minidump::format as md;
+    use minidump::system_info::{Cpu, Os};
+    use minidump::{CpuContext, MinidumpContext, MinidumpContextValidity, MinidumpMemory, MinidumpModuleList, MinidumpRawContext, UnifiedMemory};
+    use minidump_unwind::{string_symbol_supplier, walk_stack, CallStack, FrameTrust, Symbolizer, SystemInfo};
+    fn fill<C: CpuContext>(ctx: &mut C, callee: &[(String, u64)])
+    where
+        C::Register: TryFrom<u64>,
+    {
+        for (n, v) in callee {
+            if let Ok(x) = C::Register::try_from(*v) {
+                ctx.set_register(n, x);
+            }
+        }
+    }
+    let (raw, cpu) = match a.name {
+        "x86" => {
+            let mut ctx = md::CONTEXT_X86::default();
+            fill(&mut ctx, &c.callee);
+            (MinidumpRawContext::X86(ctx), Cpu::X86)
+        }
+        "amd64" => {
+            let mut ctx = md::CONTEXT_AMD64::default();
+            fill(&mut ctx, &c.callee);
+            (MinidumpRawContext::Amd64(ctx), Cpu::X86_64)
+        }
+        _ => {
+            let mut ctx = md::CONTEXT_ARM64::default();
+            fill(&mut ctx, &c.callee);
+            (MinidumpRawContext::Arm64(ctx), Cpu::Arm64)
+        }
+    };
+    let context = MinidumpContext { raw, valid: MinidumpContextValidity::All };
+    let modules = MinidumpModuleList::from_modules(vec![MinidumpModule::new(c.base, MODULE_SIZE, "mod")]);
+    let mut symbols = std::collections::HashMap::new();
+    symbols.insert("mod".to_string(), String::from_utf8(symbol_file_text(c)).map_err(|_| "utf8".to_string())?);
+    let memory = MinidumpMemory {
+        desc: Default::default(),
+        base_address: c.mem_base,
+        size: c.mem.len() as u64,
+        bytes: &c.mem,
+        endian: scroll::LE,
+    };
+    let system_info = SystemInfo {
+        os: Os::Linux,
+        os_version: None,
+        os_build: None,
+        cpu,
+        cpu_info: None,
+        cpu_microcode_version: None,
+        cpu_count: 1,
+    };
+    let symbolizer = Symbolizer::new(string_symbol_supplier(symbols));
+    let mut stack = CallStack::with_context(context);
+    let rt = tokio::runtime::Builder::new_current_thread().build().map_err(|e| e.to_string())?;
+    catch(|| {
+        rt.block_on(walk_stack(
+            0,
+            (),
+            &mut stack,
+            Some(UnifiedMemory::Memory(&memory)),
+            &modules,
+            &system_info,
+            &symbolizer,
+        ))
+    })?;
+    let Some(f1) = stack.frames.get(1) else { return Ok("nocfi".into()) };
+    if f1.trust != FrameTrust::CallFrameInfo {
+        return Ok("nocfi".into());
+    }
+    let regs: Vec<(String, u64)> = f1
+        .context
+        .valid_registers()
+        .filter(|(n, _)| *n != a.sp && *n != a.ip)
+        .map(|(n, v)| (n.to_string(), v))
+        .collect();
+    Ok(show_state(
+        f1.context.get_register(a.sp),
+        f1.context.get_register(a.ip),
+        &regs,
+    ))
+}
+
+/// the glue around `walk_frame` (see `MdModel.Cfi.stackGlue`), applied to the documented result
+fn glue(c: &Case, st: DocState) -> String {
+    let Some((_, sp, leaf, strip)) = &c.stack else { return "bad-op".into() };
+    let in_stack = !c.mem.is_empty()
+        && c.mem_base.checked_add(c.mem.len() as u64 - 1).is_some()
+        && *sp >= c.mem_base
+        && *sp - c.mem_base < c.mem.len() as u64;
+    let Some((cfa, mut ra, mut regs, _)) = st else { return "nocfi".into() };
+    if !in_stack {
+        return "nocfi".into();
+    }
+    if let Some(m) = strip {
+        ra &= m;
+        for (n, v) in regs.iter_mut() {
+            if n == "fp" || n == "lr" {
+                *v &= m;
+            }
+        }
+    }
+    if ra < 4096 || (cfa <= *sp && !(*leaf && cfa == *sp)) {
+        return "nocfi".into();
+    }
+    show_state(Some(cfa), Some(ra), &regs)
+}
+
+fn exec_stack(c: &Case) -> ImplResult {
+    let mut res = ImplResult::default();
+    let Some((arch, ..)) = &c.stack else { unreachable!() };
+    let Some(a) = ARCHS.iter().find(|a| a.name == arch) else {
+        res.out = "bad-op".into();
+        return res;
+    };
+    // the walker description on the line must be the one the architecture's glue produces
+    let want = arch_walker(a, &c.callee);
+    let in_module = c.instr >= c.base && c.instr - c.base < MODULE_SIZE as u64;
+    let ip = c.callee.iter().find(|(n, _)| n == a.ip).map(|(_, v)| *v);
+    if want.known != c.known
+        || want.alias != c.alias
+        || want.fwd != c.fwd
+        || want.ptr != c.ptr
+        || want.stack != c.stack
+        || c.callee.len() != a.regs.len()
+        || !c.callee.iter().zip(a.regs).all(|((n, v), r)| n == r && (a.ptr == 8 || *v <= u32::MAX as u64))
+        || ip != Some(c.instr)
+        || !in_module
+        || c.base.checked_add(MODULE_SIZE as u64).is_none()
+    {
+        res.out = "bad-op".into();
+        return res;
+    }
+    res.tags.push(format!("stack:{}", a.name));
+    match run_walk_stack(a, c) {
+        Ok(out) => res.out = out,
+        Err(msg) => {
+            res.out = "PANIC".into();
+            res.oracle.push(("walk-stack-panics".into(), msg));
+            return res;
+        }
+    }
+    res.tags.push(if res.out == "nocfi" { "stack-result:nocfi".into() } else { "stack-result:cfi-frame".into() });
+    res.nontrivial = res.out != "nocfi";
+    let pristine = Mock::new(c);
+    // a rule labelled with the stack or instruction pointer itself is outside what the glue model covers
+    match doc_expect(c, &pristine) {
+        Ok(st) => {
+            let lenient = glue(c, st.clone().map(|(a, b, _, l)| (a, b, l.clone(), l)));
+            let want = glue(c, st);
+            if want != res.out {
+                let class = if res.out == lenient {
+                    "reg-neither-set-nor-cleared"
+                } else {
+                    "differs-from-documented-semantics"
+                };
+                res.oracle.push((class.into(), format!("documented: {want}  implementation: {}", res.out)));
+            }
+            res.tags.push("oracle:decided".into());
+        }
+        Err(why) => res.tags.push(format!("oracle:abstains:{why}")),
+    }
+    res
+}
+
+fn gen_stack(rng: &mut Rng) -> String {
+    let a = &ARCHS[rng.below(ARCHS.len() as u64) as usize];
+    let base: u64 = 0x4000_0000;
+    let sp: u64 = if a.ptr == 4 { 0x8000_0000 } else { 0x7ffd_0000_1000 } + 8 * rng.below(4);
+    let word = a.ptr as u64;
+    let nwords = 4 + rng.below(12);
+    let off = rng.below(0x100) + 0x10;
+    let instr = base + off;
+    // stack image: small values, code addresses, stack addresses, a few extremes
+    let mut mem: Vec<u8> = vec![];
+    for _ in 0..nwords {
+        let v: u64 = match rng.below(8) {
+            0 => 0,
+            1 => base + 0x1000 + rng.below(0x100),
+            2 => sp + word * rng.below(nwords),
+            3 => {
+                if a.ptr == 4 {
+                    0xffff_fff0 + rng.below(16)
+                } else {
+                    u64::MAX - rng.below(16)
+                }
+            }
+            4 => rng.below(5000),
+            _ => base + rng.below(MODULE_SIZE as u64),
+        };
+        mem.extend_from_slice(&v.to_le_bytes()[..a.ptr as usize]);
+    }
+    let mem_base = if rng.chance(1, 12) { sp + word } else { sp - word * rng.below(2) };
+    let mask = if a.ptr == 4 { 0xffff_ffffu64 } else { u64::MAX };
+    let callee: Vec<(String, u64)> = a
+        .regs
+        .iter()
+        .map(|r| {
+            let v = if *r == a.sp {
+                sp
+            } else if *r == a.ip {
+                instr
+            } else {
+                match rng.below(6) {
+                    0 => 0,
+                    1 => mask,
+                    2 => sp + word * rng.below(nwords),
+                    3 => 4,
+                    _ => rng.below(0x10000),
+                }
+            };
+            (r.to_string(), v & mask)
+        })
+        .collect();
+    let mut c = arch_walker(a, &callee);
+    c.base = base;
+    c.instr = instr;
+    c.mem_base = mem_base;
+    c.mem = mem;
+    c.init_addr = off - rng.below(4).min(off);
+    c.init_size = 4 + rng.below(0x20);
+    let dollar = a.name != "arm64";
+    let regname = |n: &str, rng: &mut Rng| -> String {
+        if dollar != rng.chance(1, 10) {
+            format!("${n}")
+        } else {
+            n.to_string()
+        }
+    };
+    let spn = regname(a.sp, rng);
+    // other registers: callee-saved ones, a scratch register, aliases, an unknown one
+    let mut pool: Vec<String> = a.saved.iter().map(|s| s.to_string()).collect();
+    pool.push(a.regs.iter().find(|r| ["eax", "rax", "x0"].contains(r)).unwrap().to_string());
+    pool.extend(a.alias.iter().map(|(x, _)| x.to_string()));
+    pool.push("nosuch".into());
+    let gen_other = |c: &Case, rng: &mut Rng| -> String {
+        let n = rng.pick(&pool[..]).clone();
+        let mut e = vec![];
+        match rng.below(8) {
+            0 => e.push(".undef".to_string()),
+            1 => e = vec![".cfa".into(), (word * rng.below(6)).to_string(), "-".into(), "^".into()],
+            2 => e = vec![lit_pool(rng)],
+            3 => {
+                let r = rng.pick(&pool[..]).clone();
+                e = vec![regname(&r, rng), lit_pool(rng), rng.pick(&["+", "-", "*", "@"]).to_string()]
+            }
+            _ => {
+                let d = 1 + rng.below(3) as u32;
+                gen_expr(c, rng, d, true, &mut e);
+                if rng.chance(1, 5) {
+                    damage(&mut e, c, rng);
+                }
+            }
+        }
+        format!("{}: {}", regname(&n, rng), e.join(" "))
+    };
+    let cfa_rule = |rng: &mut Rng| format!(".cfa: {spn} {} +", word * (1 + rng.below(nwords)));
+    let mut init = vec![cfa_rule(rng)];
+    init.push(match rng.below(6) {
+        0 => format!(".ra: {}", base + 0x2000 + rng.below(0x100)),
+        1 => ".ra: 0".to_string(),
+        _ => format!(".ra: .cfa {} - ^", word * (1 + rng.below(3))),
+    });
+    for _ in 0..rng.below(4) {
+        init.push(gen_other(&c, rng));
+    }
+    if rng.chance(1, 20) {
+        init.remove(rng.below(2) as usize);
+    }
+    c.init = init.join(" ").into_bytes();
+    for _ in 0..rng.below(3) {
+        let addr = c.init_addr + rng.below(c.init_size + 1);
+        let mut parts = vec![];
+        if rng.chance(1, 3) {
+            parts.push(cfa_rule(rng));
+        }
+        for _ in 0..(1 + rng.below(2)) {
+            parts.push(gen_other(&c, rng));
+        }
+        c.adds.push((addr, parts.join(" ").into_bytes()));
+    }
+    render(&c)
 }
